@@ -422,3 +422,15 @@ package allocation
 //@   loop 0 invariant held(m.lock) && m != nil && allocsNonNil(m)
 //@   loop 0 invariant forall k :: seenkey(k) && haskey(m.allocations, k) ==> closed(valat(m.allocations, k).closed)
 //@   loop 0 invariant forall k :: haskey(m.allocations, k) == old(haskey(m.allocations, k)) && valat(m.allocations, k) == old(valat(m.allocations, k))
+
+//@      // ---- C18: lock discipline ("guarded by"): every access to these fields / the maps stored in them happens with
+//@      // the named lock of the same object held (exclusively for writes), unless the object was created by the
+//@      // accessing execution and is not shared yet
+//@ guarded allocation.Allocation.permissions by allocation.Allocation.permissionsLock
+//@ guarded allocation.Allocation.channelBindings by allocation.Allocation.channelBindingsLock
+//@ guarded allocation.Manager.allocations by allocation.Manager.lock
+//@ guarded allocation.Manager.reservations by allocation.Manager.lock
+//@ func NewAllocation
+//@   lockonly
+//@ func NewManager
+//@   lockonly
